@@ -187,11 +187,11 @@ PROPS["C17"] = {
 }
 
 PROPS["C18"] = {
-    "enc": ["MarkState::test_and_mark", "ObjectBarrier::log_object", "VMLocalPinningBitSpec::{pin_object, unpin_object}", "MetadataSpec::{load_atomic, compare_exchange_metadata}",
+    "enc": ["MarkState::test_and_mark", "LargeObjectSpace::test_and_mark (hook verif_test_and_mark)", "ObjectBarrier::log_object", "VMLocalPinningBitSpec::{pin_object, unpin_object}", "MetadataSpec::{load_atomic, compare_exchange_metadata}",
             "HeaderMetadataSpec::compare_exchange (sub-byte path)", "SideMetadataSpec::compare_exchange_atomic (sub-byte path)"],
     "sym": "all object/side-table bytes, object index within the shared side byte (0..=7), and at every atomic access whether another thread performs the same transition and which value it leaves in every other bit of the same byte",
-    "bound": "At most 3 interfering steps per operation; unwind 6 with unwinding assertions; side placement (8 objects per byte) and in-header placement (field next to five other fields) for mark and log; pin/unpin with feature object_pinning.",
-    "outside": "ImmixSpace::attempt_mark and the LOS mark CAS (need a space object); unbounded interference; weak memory; the N-thread counting argument",
+    "bound": "At most 3 interfering steps per operation; unwind 6 with unwinding assertions; side placement (8 objects per byte) and in-header placement (field next to five other fields) for mark and log; pin/unpin with feature object_pinning; the large-object 2-bit mark/nursery field on the side (per page, 4 pages per byte) and in the header, nursery and full-heap collection, both mark states.",
+    "outside": "ImmixSpace::attempt_mark (needs a space object); unbounded interference; weak memory; the N-thread counting argument",
     "assumptions": COMMON_ASSUME + ["H9 interference hook; rely: another thread may perform the same transition once and may rewrite all other bits of the byte arbitrarily", "nobody reverts the field during the operation"],
     "level_text": "Bounded symbolic execution (Kani/CBMC) of the real mark / log / pin transitions against symbolic interference on the same byte: the operation reports success iff this thread's own CAS performed the transition, reports failure only if the field was already transitioned, leaves the field transitioned, and never writes stale neighbouring bits.",
     "level_note": "Same encoding and limits as C17.",
